@@ -53,7 +53,8 @@ type stdioClientTransport struct {
 	decoder   *json.Decoder
 	requestID atomic.Int64
 
-	requestMutex    sync.Mutex
+	startMutex      sync.Mutex // Serializes starting the server process.
+	requestMutex    sync.Mutex // Guards encoder and the writes to stdin.
 	pendingRequests map[int64]chan *json.RawMessage
 	pendingMutex    sync.RWMutex
 	retryConfig     *retry.Config // Retry configuration for requests
@@ -117,8 +118,26 @@ func (t *stdioClientTransport) start(ctx context.Context) error {
 	return nil
 }
 
+// ensureStarted starts the MCP server process on first use. However many goroutines issue the first
+// request, one process is started; a failed start is retried by the next request.
+func (t *stdioClientTransport) ensureStarted() error {
+	t.startMutex.Lock()
+	defer t.startMutex.Unlock()
+	if t.process != nil {
+		return nil
+	}
+	return t.startProcessLocked()
+}
+
 // startProcess starts the MCP server process.
 func (t *stdioClientTransport) startProcess() error {
+	t.startMutex.Lock()
+	defer t.startMutex.Unlock()
+	return t.startProcessLocked()
+}
+
+// startProcessLocked starts the MCP server process; the caller holds startMutex.
+func (t *stdioClientTransport) startProcessLocked() error {
 	if t.closed.Load() {
 		return fmt.Errorf("transport is closed")
 	}
@@ -173,8 +192,10 @@ func (t *stdioClientTransport) startProcess() error {
 	t.stderr = stderr
 
 	// Create JSON encoder/decoder.
+	t.requestMutex.Lock()
 	t.encoder = json.NewEncoder(stdin)
 	t.decoder = json.NewDecoder(stdout)
+	t.requestMutex.Unlock()
 
 	// Start background goroutines.
 	go t.readLoop()
@@ -199,10 +220,8 @@ func (t *stdioClientTransport) sendRequest(ctx context.Context, req *JSONRPCRequ
 	}
 
 	// Start process if isn't started.
-	if t.process == nil {
-		if err := t.startProcess(); err != nil {
-			return nil, fmt.Errorf("failed to start process: %w", err)
-		}
+	if err := t.ensureStarted(); err != nil {
+		return nil, fmt.Errorf("failed to start process: %w", err)
 	}
 
 	// Generate request ID if not set.
@@ -256,10 +275,8 @@ func (t *stdioClientTransport) sendNotification(ctx context.Context, notificatio
 	}
 
 	// Start process if not started.
-	if t.process == nil {
-		if err := t.startProcess(); err != nil {
-			return fmt.Errorf("failed to start process: %w", err)
-		}
+	if err := t.ensureStarted(); err != nil {
+		return fmt.Errorf("failed to start process: %w", err)
 	}
 
 	t.requestMutex.Lock()
@@ -548,7 +565,10 @@ func (t *stdioClientTransport) sendErrorResponse(request *JSONRPCRequest, code i
 		return
 	}
 
-	if err := t.encoder.Encode(json.RawMessage(errorBytes)); err != nil {
+	t.requestMutex.Lock()
+	err = t.encoder.Encode(json.RawMessage(errorBytes))
+	t.requestMutex.Unlock()
+	if err != nil {
 		t.logger.Errorf("Failed to send error response: %v", err)
 	}
 }
